@@ -100,6 +100,8 @@ type Run struct {
 	mu      sync.Mutex
 	caseNo  int
 	caseBuf []string
+	caseOps []string // op lines of the current case (for findings streamed to oracle.partial.jsonl)
+	partial *os.File
 
 	Evaluations int
 	nontrivial  map[string]struct{}
@@ -149,9 +151,12 @@ func (r *Run) Case(subseed uint64) int {
 	r.caseNo++
 	r.Evaluations++
 	h := fmt.Sprintf("# case %d %d", r.caseNo, subseed)
+	r.mu.Lock()
 	fmt.Fprintln(r.ops, h)
 	fmt.Fprintln(r.impl, h)
 	r.caseBuf = r.caseBuf[:0]
+	r.caseOps = append(r.caseOps[:0], h)
+	r.mu.Unlock()
 
 	return r.caseNo
 }
@@ -161,11 +166,16 @@ func (r *Run) Line(op string, implAnswer string) {
 	if strings.ContainsAny(op, "\n") || strings.ContainsAny(implAnswer, "\n") {
 		panic("newline in protocol line")
 	}
+	r.mu.Lock()
 	fmt.Fprintln(r.ops, op)
 	fmt.Fprintln(r.impl, implAnswer)
 	if len(r.caseBuf) < 200 {
 		r.caseBuf = append(r.caseBuf, op+" => "+implAnswer)
 	}
+	if len(r.caseOps) < 2000 {
+		r.caseOps = append(r.caseOps, op)
+	}
+	r.mu.Unlock()
 }
 
 // CaseLines returns the lines of the current case (for samples).
@@ -205,9 +215,33 @@ func (r *Run) Fail(oracle, detail string, sig map[string]string) {
 	}
 	r.perSig[sk.String()]++
 	r.Hist["finding:"+oracle]++
+	if r.perSig[sk.String()] == 1 && len(r.perSig) <= 40 {
+		// streamed at once (first occurrence of a signature), so that the finding and the op lines that led to it
+		// survive a harness that is killed later (run-away allocation, fatal runtime error, hang) and never
+		// reaches Finish
+		r.streamFinding(Finding{Case: r.caseNo, Oracle: oracle, Detail: detail, Signature: sig})
+	}
 	if r.perSig[sk.String()] <= 250 && len(r.Findings) < 20000 {
 		r.Findings = append(r.Findings, Finding{Case: r.caseNo, Oracle: oracle, Detail: detail, Signature: sig})
 	}
+}
+
+func (r *Run) streamFinding(f Finding) {
+	if r.partial == nil {
+		pf, err := os.OpenFile(filepath.Join(r.OutDir, "oracle.partial.jsonl"), os.O_CREATE|os.O_WRONLY|os.O_TRUNC, 0o644)
+		if err != nil {
+			return
+		}
+		r.partial = pf
+	}
+	b, err := json.Marshal(struct {
+		Finding
+		Ops []string `json:"ops"`
+	}{f, append([]string(nil), r.caseOps...)})
+	if err != nil {
+		return
+	}
+	r.partial.Write(append(b, '\n'))
 }
 
 // Finish flushes everything and writes stats.json and oracle.json.
